@@ -22,6 +22,7 @@ mod idioms;
 mod c15;
 mod c19;
 mod c14;
+mod c07;
 
 use engine::{Env, Tier};
 use std::path::PathBuf;
@@ -122,6 +123,7 @@ fn main() {
         "C15" => c15::run(&env),
         "C19" => c19::run(&env),
         "C14" => c14::run(&env, &rest),
+        "C07" => c07::run(&env),
         _ => usage(),
     };
     std::process::exit(code);
